@@ -420,6 +420,8 @@ def run(ck: Check):
     _real()
     ck.pins_changed(PINS)
     ck.run_gen("opcodes")
+    ck.run_gen("py2lean_selftest")
+    ck.run_gen("py2lean_insn")          # the 36 constructors translated from the source (theorem source_constructors_agree)
     ck.prove(exes=["drv_C01"])
     drv = Driver("drv_C01")
     ck.rule = ("requests: every opcode x every second byte (the whole first code unit) x six fixed tails (units 0000 ffff "
